@@ -426,7 +426,7 @@ pub trait Engine: Sync {
     /// Wall-clock budget of the whole tier, in seconds.
     fn budget_s(&self, tier: Tier) -> u64 {
         match tier {
-            Tier::Quick => 45,
+            Tier::Quick => 90,
             Tier::Thorough => 1500,
         }
     }
